@@ -161,6 +161,7 @@ func c13Judge(image []byte, id int, what string) (ok bool, sig, detail string) {
 		fs.Files[c13Name(rsum, dsum)] = image
 	}
 	data, openErr, readErr, pan := c13Open(rsum, dsum)
+	engine.Outcome(fmt.Sprintf("%v|%v|%d", openErr != nil, readErr != nil, len(data)))
 	if pan != "" {
 		return false, "open-panic", what + ": Open/Read panics: " + pan
 	}
